@@ -98,6 +98,38 @@ fn label_points(kind: usize) -> [(i32, i32); 5] {
         _ => panic!("MACHINERY: C06 no label points for kind {kind}"),
     }
 }
+/// The same shape written differently: closed vertex lists start at vertex `start` (mod n) and run in the
+/// opposite direction if `reverse`; paths are drawn from their other end if `reverse`.
+fn respell(e: GdsElement, start: usize, reverse: bool) -> GdsElement {
+    fn cycle(xy: &[GdsPoint], start: usize, reverse: bool) -> Vec<GdsPoint> {
+        let mut open: Vec<GdsPoint> = xy[..xy.len() - 1].to_vec();
+        if reverse {
+            open.reverse();
+        }
+        let n = open.len();
+        let mut v: Vec<GdsPoint> = (0..n).map(|i| open[(i + start) % n].clone()).collect();
+        v.push(v[0].clone());
+        v
+    }
+    match e {
+        GdsElement::GdsBoundary(mut b) => {
+            b.xy = cycle(&b.xy, start, reverse);
+            b.into()
+        }
+        GdsElement::GdsBox(mut b) => {
+            let v = cycle(&b.xy, start, reverse);
+            b.xy = [v[0].clone(), v[1].clone(), v[2].clone(), v[3].clone(), v[4].clone()];
+            b.into()
+        }
+        GdsElement::GdsPath(mut p) => {
+            if reverse {
+                p.xy.reverse();
+            }
+            p.into()
+        }
+        other => other,
+    }
+}
 fn text(layer: i16, s: &str, at: (i32, i32)) -> GdsElement {
     GdsTextElem { layer, texttype: 9, string: s.into(), xy: gp(at), ..Default::default() }.into()
 }
@@ -249,6 +281,11 @@ impl C06 {
         tags.push(KIND_TAGS[kind]);
         let pos = c.free(5, "label-position");
         tags.push(POS_TAGS[pos]);
+        // the same shape listed from another start vertex / in the other direction (paths: drawn backwards)
+        let start_vertex = c.free(4, "start-vertex");
+        let reverse = c.free(2, "reverse-direction") == 1;
+        tags.push(["start:v0", "start:v1", "start:v2", "start:v3"][start_vertex]);
+        tags.push(if reverse { "direction:reversed" } else { "direction:as-listed" });
         let other_layer = c.free(2, "label-layer") == 1;
         tags.push(if other_layer { "label:other-layer" } else { "label:same-layer" });
         let second_shape = c.free(4, "second-shape");
@@ -261,7 +298,7 @@ impl C06 {
         let diag = c.cost(2, "diagonal-path-on-layer") == 1;
         let pts = label_points(kind);
         let (shape_layer, label_layer) = (7i16, if other_layer { 8 } else { 7 });
-        let mut shapes: Vec<GdsElement> = vec![shape_elem(kind, shape_layer, 3, (0, 0))];
+        let mut shapes: Vec<GdsElement> = vec![respell(shape_elem(kind, shape_layer, 3, (0, 0)), start_vertex, reverse)];
         match second_shape {
             // a big rectangle on the same layer/datatype containing every near label point
             1 => shapes.push(GdsBoundary { layer: 7, datatype: 3, xy: closed(&[(0, 0), (100, 0), (100, 100), (0, 100)], (0, 0)), ..Default::default() }.into()),
@@ -670,7 +707,7 @@ impl CaseDriver for C06 {
             ),
             Part::Deep => "4-level chains, structs in every one of the 24 listing orders, every reference SREF or AREF x 8 orientations (free), leaf content CW rectangle or L-polygon; the costed alphabet of [hier] with deviation bound 1.".into(),
             Part::Label => format!(
-                "one cell: shape kind (7) x label position {{inside, on an edge, on a vertex, just outside, far outside}} x label on the same / another layer x second shape {{none, same layer overlapping, other layer, same layer other datatype}} x second label {{none, same point listed before, same point listed after, inside with another string}} (all free); costed (bound {}): strings (mixed / upper / single-letter case pairs), element order (shapes first, labels first, interleaved), a diagonal path on the labels' layer. Non-trivial = every case (each has a label).",
+                "one cell: shape kind (7) x label position {{inside, on an edge, on a vertex, just outside, far outside}} x vertex list started at each of 4 vertices x both directions (paths: drawn from either end) x label on the same / another layer x second shape {{none, same layer overlapping, other layer, same layer other datatype}} x second label {{none, same point listed before, same point listed after, inside with another string}} (all free); costed (bound {}): strings (mixed / upper / single-letter case pairs), element order (shapes first, labels first, interleaved), a diagonal path on the labels' layer. Non-trivial = every case (each has a label).",
                 self.bound(tier)
             ),
             Part::Mal => "malformed libraries: dangling SREF / AREF, self-reference by SREF / AREF, 2-cycle, 3-cycle (through an AREF), cols = 0, rows = 0, boundary with empty xy, path with empty xy (required outcome: Err), plus boundary not closed, path without width, SREF abs_mag, AREF abs_angle (Err expected and the only outcome judged); each as the whole library and below a well-formed top cell; every listing order (quick: cyclic libraries in every rotation).".into(),
@@ -871,7 +908,7 @@ impl CaseDriver for C06 {
             Part::Deep => require_tags(stats, &["levels:4"])?,
             Part::Label => {
                 require_tags(stats, &POS_TAGS)?;
-                require_tags(stats, &["label:other-layer", "label:same-layer", "shape2:same-layer-overlapping", "label2:same-point-listed-before", "label2:inside-other-string", "order:labels-first", "order:interleaved", "ref:label-names-a-net", "ref:label-becomes-annotation", KIND_TAGS[8]])?;
+                require_tags(stats, &["label:other-layer", "label:same-layer", "shape2:same-layer-overlapping", "label2:same-point-listed-before", "label2:inside-other-string", "order:labels-first", "order:interleaved", "start:v1", "start:v2", "start:v3", "direction:reversed", "ref:label-names-a-net", "ref:label-becomes-annotation", KIND_TAGS[8]])?;
             }
             Part::Mal => {
                 require_tags(
